@@ -144,6 +144,14 @@ PLANS = {
                 "dropped-not-completed under a timeout, in-flight gauge never above the limit; non-trivial = the script has at least one non-ok item",
                 [dict(flavor="fast", lane="free", secs=15)], [dict(flavor="fast", lane="free", secs=200), dict(flavor="checked", lane="free", secs=80)], 1000, 10000,
                 ["on the multi-thread runtime no category depends on wall-clock time (tokio::time::timeout polls the inner future first)"]),
+    "C12": plan("workload `direct`: the item scripts of C11 through the five StreamExecutor::spawn_* functions -- close callback invoked exactly once, with no item unfinished, status StreamEnded, finish >= start; "
+                "workload (default, drawn per run) `uni`: a Uni with MAX_STREAMS 1/2/4 futures executors (3 channel kinds), user callback exactly once with finished_executors_count == MAX_STREAMS, no stream running, "
+                "no item in progress; `multi`: 2-3 pipelines on 4 Multi kinds, pipeline 0 removed by flush_and_cancel_executor at a random point, the rest closed: every callback exactly once, after the last item "
+                "of its stream (ledger stamps), ended state legal (ProgrammaticallyEnded only if scheduled), the other pipelines got every event; `sequential`: log channel, old events, spawn_futures_oldies_executor "
+                "with sequential_transition on/off, new events: with the flag on no new event starts before the last old one finished; paused-time and multi-thread runtimes; non-trivial = at least one event",
+                [dict(flavor="fast", lane="free", secs=12, args=["--set", "workload=direct"]), dict(flavor="fast", lane="free", secs=20)],
+                [dict(flavor="fast", lane="free", secs=120, args=["--set", "workload=direct"]), dict(flavor="fast", lane="free", secs=240), dict(flavor="checked", lane="free", secs=80)], 1000, 10000,
+                ["MAX_STREAMS = 3 is not constructible (the stream-id ring needs a power of two)", "a run that does not finish within the 60 s wall-clock watchdog is inconclusive"]),
 }
 
 LEVEL_NOTE = ("trusted base: the harness (conductor/chaos scheduler, recorder, checkers), the placement of the hook sites, x86-64/TSO for the free-running lane, "
@@ -216,6 +224,9 @@ META = {
     "C11": meta("tokio", "runtime monitoring: per-item outcome ledger + in-flight gauge inside the item futures, compared with the executor's counters and error-callback invocations at the close callback",
                 "Randomised exploration of item scripts over every executor variant / instrument setting / limit / runtime.",
                 "DESIGN.md section 2, C11"),
+    "C12": meta("tokio", "runtime monitoring: callback ledger (invocation count, logical stamp relative to each item's finished stamp, executor status / start / finish deltas read inside the callback) on real tokio runtimes",
+                "Randomised exploration of executor life cycles (direct, Uni latch, Multi per-pipeline cancellation, log-channel old->new transition) with items completing out of order.",
+                "DESIGN.md section 2, C12"),
 }
 
 for _p in ("C05", "C13", "C14"):
